@@ -265,6 +265,13 @@ fn choose_move(rng: &mut Rng, m: &ModelGame, legal: &[RMove], pol: Policy) -> RM
         }
         Policy::AvoidBreak(_) => choose_move(rng, m, legal, Policy::Avoid),
         Policy::Avoid => {
+            // once the fifty-move clock is high, sometimes finish the game with a quiet move (mate or stalemate)
+            if m.clock >= 99 && rng.chance(1, 4) {
+                let enders: Vec<RMove> = legal.iter().cloned().filter(|mv| kind(m.cur.sq[mv.from as usize]) != P && !m.cur.is_capture(*mv) && !m.cur.make(*mv).has_legal_move()).collect();
+                if !enders.is_empty() {
+                    return *rng.pick(&enders);
+                }
+            }
             // reversible, not ending the game, never a third occurrence; keep castling rights for a while
             let mut ok: Vec<RMove> = vec![];
             let mut ok_keep_rights: Vec<RMove> = vec![];
@@ -319,7 +326,12 @@ fn choose_move(rng: &mut Rng, m: &ModelGame, legal: &[RMove], pol: Policy) -> RM
 
 impl GameMon {
     pub fn play(&self, start: &RPos, pol: Policy2, max_actions: usize, rng: &mut Rng, rep: &mut Report) {
+        let mut prelude: Vec<RMove> = vec![];
         let pol = match pol {
+            Policy2::SeekAfterPrelude(pre) => {
+                prelude = pre;
+                Policy::Seek
+            }
             Policy2::Random => Policy::Random,
             Policy2::Seek => Policy::Seek,
             Policy2::Avoid => Policy::Avoid,
@@ -465,7 +477,7 @@ impl GameMon {
                 self.try_move(&mut run, m, rho, &legal, rep);
                 continue;
             }
-            let m = choose_move(rng, &run.m, &legal, pol);
+            let m = if (run.m.nmoves as usize) < prelude.len() && legal.contains(&prelude[run.m.nmoves as usize]) { prelude[run.m.nmoves as usize] } else { choose_move(rng, &run.m, &legal, pol) };
             prev_legal = legal.clone();
             self.try_move(&mut run, m, rho, &legal, rep);
         }
@@ -616,12 +628,14 @@ impl GameMon {
     }
 }
 
-#[derive(Clone, Copy)]
+#[derive(Clone)]
 pub enum Policy2 {
     Random,
     Seek,
     Avoid,
     AvoidBreak,
+    /// play the given moves first, then seek repetitions
+    SeekAfterPrelude(Vec<RMove>),
 }
 
 pub fn run_game(ctx: &Ctx, rep: &mut Report, c10: bool, c11: bool) {
@@ -633,7 +647,16 @@ pub fn run_game(ctx: &Ctx, rep: &mut Report, c10: bool, c11: bool) {
     let n = if c11 { ctx.budget(2500, 25_000, 1, 60) } else { ctx.budget(12_000, 150_000, 2, 200) };
     ctx.cases(rep, "games", n, |gid, rng, rep| {
         let (start, pol, len) = if c11 {
-            match rng.below(8) {
+            match rng.below(10) {
+                8 | 9 => {
+                    // e.p.-rich starts (pinned capturers, exposure) followed by repetition seeking:
+                    // position identity must include the e.p. possibility
+                    let id = *rng.pick(&[3usize, 13, 0, 1, 2, 13, 3]);
+                    match synth::scenario_retry(rng, id) {
+                        Some(st) => (st.pos, Policy2::SeekAfterPrelude(st.prelude), 40),
+                        None => (rev[rng.below(rev.len())].clone(), Policy2::Seek, 60),
+                    }
+                }
                 6 | 7 => {
                     let f = promo[rng.below(promo.len())].clone();
                     (if rng.chance(1, 2) { f } else { f.mirror_v() }, Policy2::AvoidBreak, 250)
